@@ -888,6 +888,14 @@ def build_tf(case):
             a[0, 0] = 1.0
     if case["a_kind"] in ("vec", "col"):
         a = a[:, :1] @ np.ones((1, nf))
+    ts_ = float(case.get("tunit", 1.0))
+    if ts_ != 1.0:
+        # the same component on another time scale (s -> ms): stiffness x s^2, damping x s, frequencies x s.  Modal
+        # stiffnesses of the q-set then fall below 1e-2 as NUMBERS; nothing in a Craig-Bampton solution hangs on that
+        K = K * ts_ ** 2
+        Bm = Bm * ts_
+        w = w * ts_
+        freq = freq * ts_
     return dict(M=M, K=K, B=Bm, nb=nb, nq=nq, bset=bset, qset=qset, freq=freq, a=a, w=w, iP=iP, zeta=zeta)
 
 
@@ -1041,7 +1049,7 @@ def tf_cases(draw, noq_order=False):
                 qform=draw(st.sampled_from(["diag", "full"])), cplx=draw(st.integers(0, 3)) == 0,
                 bpos=bpos, freq=freq,
                 a_kind=draw(st.sampled_from(["vec", "col", "mat", "mat", "real"])),
-                save=draw(st.booleans()), bsym=draw(st.booleans()))
+                save=draw(st.booleans()), bsym=draw(st.booleans()), tunit=draw(st.sampled_from([1.0, 1.0, 1e-3])))
 
 
 # ---------------------------------------------------------------- cgmass
